@@ -61,7 +61,17 @@ class DPSKModulator(BaseModulator):
     def _create_constellation(self) -> None:
         """Create the DPSK constellation mapping."""
         # Generate differential phase shifts
-        angles = torch.arange(0, self.order) * (2 * torch.pi / self.order)
+        # Point i is selected by the bit group with integer value i (see forward). With Gray coding
+        # it is placed at the position whose Gray code is i, so that adjacent phases differ in one bit.
+        positions = torch.arange(0, self.order)
+        if self.gray_coding:
+            binary = positions.clone()
+            shift = positions >> 1
+            while torch.any(shift > 0):
+                binary = binary ^ shift
+                shift = shift >> 1
+            positions = binary  # Gray to binary conversion of the label
+        angles = positions * (2 * torch.pi / self.order)
 
         # For non-gray-coded, rotate constellation to make it different
         if not self.gray_coding:
@@ -75,19 +85,11 @@ class DPSKModulator(BaseModulator):
         # Create bit pattern mapping
         bit_patterns = torch.zeros(self.order, self._bits_per_symbol)
 
-        if self.gray_coding:
-            # Apply Gray coding
-            for i in range(self.order):
-                gray_idx = i ^ (i >> 1)  # Binary to Gray conversion
-                bin_str = format(gray_idx, f"0{self._bits_per_symbol}b")
-                for j, bit in enumerate(bin_str):
-                    bit_patterns[i, j] = int(bit)
-        else:
-            # Standard binary coding
-            for i in range(self.order):
-                bin_str = format(i, f"0{self._bits_per_symbol}b")
-                for j, bit in enumerate(bin_str):
-                    bit_patterns[i, j] = int(bit)
+        # The label of point i is the binary representation of i (the modulator's mapping)
+        for i in range(self.order):
+            bin_str = format(i, f"0{self._bits_per_symbol}b")
+            for j, bit in enumerate(bin_str):
+                bit_patterns[i, j] = int(bit)
 
         self.register_buffer("constellation", constellation)
         self.register_buffer("bit_patterns", bit_patterns)
